@@ -18,7 +18,7 @@ RULE = ("every shipped example (pv/ref/examples_table.py: import path, documente
 ASSUMPTIONS = ["the documented ranges in pv/ref/examples_table.py are transcribed by hand; a disagreement is first examined "
                "for a transcription error", "solver status 'optimal' means converged (Clarabel 1e-8)"]
 DECIDING_COUNTER = "runs_judged"
-MIN_DECIDED = {"quick": 120, "thorough": 2500}
+MIN_DECIDED = {"quick": 120, "thorough": 2200}
 REQUIRED_COUNTERS = {"quick": {"examples_covered": 70}, "thorough": {"examples_covered": 80}}
 NSHARDS = 16
 STANDINS = os.path.join(os.path.dirname(os.path.dirname(os.path.abspath(__file__))), "standins")
@@ -45,7 +45,7 @@ def post_merge(counters, extra):
 
 
 def plan(tier, seed):
-    k = 1 if tier == "quick" else 30
+    k = 3 if tier == "quick" else 40
     return [{"name": "s%d" % i, "seed": seed, "shard": i, "draws": k, "extra_path": [STANDINS]} for i in range(NSHARDS)]
 
 
